@@ -49,3 +49,9 @@ func init() {
 		Assume: []string{"an escape of more than five directory levels would leave the snapshotted jail (trees here are at most 5 levels deep)", "must-reject names: contain '/', equal '..', equal '.' below the root, or empty"},
 		Rule: "cases: every forest shape up to the node bound with one hostile name ('..', '.', 'a/b', '/abs', '../x', 'a/../../x', NUL, 256 bytes, ...) at every node position, plus seeded random forests with several hostile names (From-Root additionally empty and LF names) x {MkdirFromMarkdown, MkdirFromRoot} x {dry-run, real} x {simple, massive} x extension lists x target forms {absolute, default via chdir, relative}; one evaluation = one real call judged on the jail snapshot outside and inside the target; distinct key = hash(forest, route, mode, ext list, target form); every case is non-trivial (contains a hostile name)"}
 }
+
+func init() {
+	props["C08"] = propCfg{Level: "exploration",
+		Assume: []string{"no symlinks, no unreadable directories (process runs as root)", "the lists' order is unspecified: compared as sets"},
+		Rule: "cases: every labeled forest up to the node bound with distinct roots x every prefix-closed subset of its node paths as directory state (exhaustive up to 6 nodes), leaves as files or directories, 0-3 extra files/directories inside roots, next to roots and nested, states produced by a real Mkdir with each extension list; x {strict, non-strict} x {explicit, default target} x {VerifyFromMarkdown, VerifyFromRoot, aliases}; plus seeded random forests; one evaluation = one real Verify whose verdict and parsed missing/extra lists are compared with the model for the first differing root, and the jail snapshot must be unchanged; distinct key = hash(forest, state, route, strictness, target form); every case is counted non-trivial (a directory state is materialised)"}
+}
